@@ -464,12 +464,14 @@ func (e *Engine) verifyFunc(con *Contract) *FuncResult {
 		return res
 	}
 	c := newFuncCtx(e, con.Mode, fnDisplayName(fn))
+	c.rootFn = fn
+	c.rootCon = con
 	res.Ctx = c
 	f := c.newFrame(fn, con)
 	st := c.newBase()
 	var facts []string
 	addInput := func(name string, v Val) {
-		c.registerInput(name, v)
+		c.regIn(name, v, st, 0)
 	}
 	for _, p := range fn.Params {
 		v := f.freshVal(p.Type(), "p_"+p.Name())
@@ -503,6 +505,9 @@ func (e *Engine) verifyFunc(con *Contract) *FuncResult {
 		facts = append(facts, fmt.Sprintf("(not (= %s 0))", v.S))
 		f.nonNilRoots()[v.S] = true
 		c.inputRefs = append(c.inputRefs, v.S)
+		// captured variable: its value at entry is an input of the closure
+		el := fv.Type().Underlying().(*types.Pointer).Elem()
+		c.regIn(fv.Name(), Val{T: el, S: c.load(st, c.ptrOf(v), el)}, st, 0)
 	}
 	// distinct captured variables
 	for i := 0; i < len(fn.FreeVars); i++ {
